@@ -31,8 +31,14 @@ LEVEL_TEXT = (
     "(Gql/Validation/Rules.lean): never BREAK / never edit (modelled_rules_never_edit), every framework theorem instantiated for any "
     "list of them (modelled_rules_compositional), and 'reports nothing iff a declarative predicate holds' for KnownFragmentNames, "
     "UniqueArgumentNames, UniqueVariableNames, LoneAnonymousOperation, UniqueOperationNames, UniqueFragmentNames (…_iff_spec; the last three have "
-    "private state, the last two answer SKIP) and, through the context getters, NoUnusedVariables (…_iff_spec_partial); "
-    "get_fragment_spreads terminates (fragment_spreads_terminates_partial). "
+    "private state, the last two answer SKIP), NoUnusedFragments (noUnusedFragments_iff_spec: every fragment definition is reachable from "
+    "some operation in the spread graph), NoUndefinedVariables (noUndefinedVariables_iff_spec: every variable used in an operation or in a "
+    "fragment it reaches is defined by the operation), UniqueInputFieldNames (uniqueInputFieldNames_iff_spec: per object value, the stack of "
+    "known-name maps never underflows) and NoUnusedVariables (noUnusedVariables_iff_spec, fully declarative; the getter form "
+    "…_iff_spec_partial is kept) — ten of the eleven modelled rules, NoFragmentCycles has termination only; the context getters are characterised: get_fragment_spreads = the spreads of the selection set "
+    "(fragment_spreads_iff_spec), get_recursively_referenced_fragments = reachability in the spread graph (rec_frags_iff_reachable); "
+    "all three fuelled loops terminate within the model's fuel (fragment_spreads_terminates_partial, rec_frags_terminates, "
+    "detect_cycle_terminates: the `<fuel>` marker is never reported). "
     "For ALL concrete rule classes (every class in validation/rules, every rule of specified_rules / specified_sdl_rules) the "
     "non-editing half of the framework's hypothesis is a regenerated proof obligation: a table of everything each enter*/leave* method "
     "can return (Python ast, following `return self.helper(...)`) is rewritten from the source on every run and the kernel decides that "
@@ -67,7 +73,10 @@ ASSUMPTIONS = [
 EXPLANATION = (
     "Modelled rules: modelled_rules_never_edit, modelled_rules_compositional, knownFragmentNames_iff_spec, uniqueArgumentNames_iff_spec, "
     "uniqueVariableNames_iff_spec, loneAnonymousOperation_iff_spec, uniqueOperationNames_iff_spec, uniqueFragmentNames_iff_spec, "
-    "noUnusedVariables_iff_spec_partial, fragment_spreads_terminates_partial; correspondence: each modelled rule alone "
+    "noUnusedVariables_iff_spec_partial, noUnusedVariables_iff_spec, noUnusedFragments_iff_spec, noUndefinedVariables_iff_spec, "
+    "uniqueInputFieldNames_iff_spec, fragment_spreads_iff_spec, "
+    "rec_frags_iff_reachable, fragment_spreads_terminates_partial, rec_frags_terminates, detect_cycle_terminates, "
+    "noFragmentCycles_no_fuel_marker; correspondence: each modelled rule alone "
     "through the real validate() vs the model on documents aimed at them (duplicate names, undefined / unused fragments and variables, self-, mutual and "
     "long spread cycles reached from several roots, duplicate fragment definitions, fragment variables) and on all other executable documents of the run. "
     "Theorems: parallel_members, parallel_alone, parallel_alone_single_full, parallel_alone_direct(_sdl), rules_union(_sdl), rules_order, "
